@@ -62,6 +62,25 @@ class C09(EvalFamProp):
                 cut = rng.randrange(1, len(items))
                 docs = [{'raw': M(items[:cut])}, {'raw': M(items[cut:])}]
             out[i % len(out)] = {'docs': docs, 'style': ['flow', 0, 0]}
+        # LONG chains and cycles (9-13 hops): a chain ending in a terminal, a cycle, a cycle entered from a reference outside it,
+        # in random key order (seeded change S8-C09: only the last 8 hops of a chain were remembered)
+        for i in range(max(3, n // 25)):
+            ln = rng.choice([9, 10, 11, 12, 13])
+            names = ['n%d' % j for j in range(ln)]
+            shape = rng.choice(['chain', 'cycle', 'lasso', 'lasso'])
+            items = [(names[j], Stext(names[j + 1], 'xref')) for j in range(ln - 1)]
+            if shape == 'chain':
+                items.append((names[-1], rng.choice([S(1), Q([S(1)]), M([('z', S(3))])])))
+            else:
+                items.append((names[-1], Stext(names[0], 'xref')))
+            if shape == 'lasso':
+                items.append(('entry', Stext(rng.choice(names), 'xref')))
+                if rng.random() < 0.5:
+                    items.append(('entry2', Stext('entry', 'xref')))
+            rng.shuffle(items)
+            if shape == 'lasso' and rng.random() < 0.6:       # the outside reference is evaluated first
+                items.sort(key=lambda kv: not kv[0].startswith('entry'))
+            out[(len(out) // 2 + i) % len(out)] = {'docs': [{'raw': M(items)}], 'style': ['flow', 0, 0]}
         # one TAGGED node placed under two keys by a YAML anchor / alias, and references to either key, in random key order
         # (seeded change S6-C09: a reference to the second key was reported as circular); outside the model: oracle only
         for i in range(max(3, n // 20)):
